@@ -123,7 +123,7 @@ class HTMLRenderer(BaseRenderer):
     def block_code(self, code: str, info: Optional[str] = None) -> str:
         html = "<pre><code"
         if info is not None:
-            info = safe_entity(info.strip())
+            info = safe_entity(info.strip()).strip()
         if info:
             lang = info.split(None, 1)[0]
             html += ' class="language-' + lang + '"'
